@@ -134,11 +134,12 @@ def gen_version_atom(rng, cfg):
     name = rng.choice(cfg["version_vars"])
     base = rng.choice(cfg["bases"])
     roll = rng.random()
-    if roll < 0.08 and name == "python_version":
-        # in / not in lists
-        others = rng.sample(cfg["bases"], k=min(len(cfg["bases"]), rng.choice([1, 2, 2, 3])))
-        sep = rng.choice([", ", ",", " , "])
-        value = sep.join(f"{a}.{b}" for a, b in others)
+    if roll < 0.08 and (name == "python_version" or rng.random() < cfg["p_pfv_lists"]):
+        # in / not in lists (python_version mostly; python_full_version in some runs, sharing list texts)
+        others = rng.sample(cfg["bases"], k=min(len(cfg["bases"]), rng.choice(cfg["list_sizes"])))
+        sep = rng.choice([", ", ", ", ",", " , "])
+        long_form = rng.random() < cfg["p_long_pv"]
+        value = sep.join(f"{a}.{b}.0" if long_form else f"{a}.{b}" for a, b in others)
         return atom(name, rng.choice(["in", "not in"]), value)
     if roll < 0.20:
         # wildcards
@@ -318,6 +319,17 @@ def respell(rng, n, enabled, p=0.6, depth=0):
             a[4] = not a[4]
         if "respell" in enabled and rng.random() < p and a[1] in VERSION_VARS and "*" not in a[3] and "," not in a[3]:
             a[3] = _respell_value(rng, a[1], a[3])
+        elif a[1] in VERSION_VARS and a[2] in ("in", "not in") and rng.random() < p:
+            # respell a version list: entries, order, separators; or hand the same text to the other variable
+            parts = [x.strip() for x in a[3].split(",")]
+            if "respell" in enabled and rng.random() < 0.5:
+                parts = [_respell_value(rng, a[1], x) for x in parts]
+            if "permute" in enabled and rng.random() < 0.5:
+                rng.shuffle(parts)
+            if rng.random() < 0.5:
+                a[3] = rng.choice([", ", ",", " , "]).join(parts)
+            if rng.random() < 0.25:
+                a[1] = "python_full_version" if a[1] == "python_version" else "python_version"
         return a
     kind = n[0]
     kids = [respell(rng, c, enabled, p, depth + 1) for c in n[1:]]
@@ -400,6 +412,8 @@ def gen_config(rng, fault_class=None):
         "order_ops": order_ops,
         "p_flip": rng.choice([0.0, 0.15, 0.3, 0.5]),
         "p_long_pv": rng.choice([0.1, 0.1, 0.5]),
+        "p_pfv_lists": rng.choice([0.0, 0.3, 1.0]),
+        "list_sizes": rng.choice([[1, 2, 2, 3], [1, 2, 2, 3], [3, 3, 4]]),
         "p_invalid": rng.choice([0.0, 0.0, 0.3]),
         "p_single": rng.choice([0.25, 0.4, 0.6]),
         "p_nest": rng.choice([0.0, 0.25, 0.5]),
@@ -564,8 +578,27 @@ class _new(int):
 def saturation_universe(rng, cfg):
     """A tiny closed universe of atoms: every operator x spelling x literal side over one or two
     version bases of one or two variables (or the values of one string variable / extra)."""
-    kind = rng.choice(["pv", "pfv", "pv_pfv", "string", "extra", "release"])
+    kind = rng.choice(["pv", "pfv", "pv_pfv", "string", "extra", "release", "lists"])
     atoms = []
+    if kind == "lists":
+        # version lists (in / not in) in several spellings, orders and separators, on one or both variables
+        base = rng.choice(VERSION_BASES[:-1])
+        vs = [(base[0], base[1] + i) for i in range(3)]
+        short = [f"{a}.{b}" for a, b in vs]
+        longf = [f"{a}.{b}.0" for a, b in vs]
+        names = rng.choice([["python_version"], ["python_full_version"], list(VERSION_VARS)])
+        texts = [", ".join(short), ", ".join(longf), ",".join(reversed(short)), ", ".join(short[:2]), ", ".join(longf[:2]),
+                 ", ".join([short[0], longf[1], short[2]]), short[0]]
+        for name in names:
+            for t in texts:
+                atoms.append(atom(name, "in", t))
+                atoms.append(atom(name, "not in", t))
+            for v in (short[0], longf[1], short[2]):
+                for op in (">=", "<", "==", "!=", ">", "<="):
+                    atoms.append(atom(name, op, v))
+        if len(atoms) > 40:
+            atoms = rng.sample(atoms, 40)
+        return atoms
     if kind in ("pv", "pfv", "pv_pfv"):
         names = {"pv": ["python_version"], "pfv": ["python_full_version"], "pv_pfv": list(VERSION_VARS)}[kind]
         base = rng.choice(VERSION_BASES)
@@ -585,10 +618,11 @@ def saturation_universe(rng, cfg):
                         atoms.append(atom(name, op, v, True))
                 atoms.append(atom(name, "==", f"{b[0]}.{b[1]}.*"))
                 atoms.append(atom(name, "!=", f"{b[0]}.{b[1]}.*"))
-            if name == "python_version":
+            if name == "python_version" or rng.random() < 0.5:
                 nb = (bases[0][0], bases[0][1] + 1)
-                x, y = f"{bases[0][0]}.{bases[0][1]}", f"{nb[0]}.{nb[1]}"
-                for lst in (f"{x}, {y}", f"{y},{x}", f"{x}"):
+                nb2 = (bases[0][0], bases[0][1] + 2)
+                x, y, z = f"{bases[0][0]}.{bases[0][1]}", f"{nb[0]}.{nb[1]}", f"{nb2[0]}.{nb2[1]}"
+                for lst in (f"{x}, {y}", f"{y},{x}", f"{x}", f"{x}, {y}, {z}", f"{x}.0, {y}.0, {z}.0", f"{z}, {x}, {y}"):
                     atoms.append(atom(name, "in", lst))
                     atoms.append(atom(name, "not in", lst))
     elif kind == "release":
